@@ -45,7 +45,8 @@ fn open_fds() -> Vec<i32> {
         // one that is not 0..2 and points to /proc/<pid>/fd
         for fd in names {
             let link = std::fs::read_link(format!("/proc/self/fd/{}", fd)).map(|p| p.to_string_lossy().to_string()).unwrap_or_default();
-            if link.starts_with("/proc/") && link.ends_with("/fd") {
+            if link.is_empty() || (link.starts_with("/proc/") && link.ends_with("/fd")) {
+                // the directory handle used for this listing (already closed again)
                 continue;
             }
             v.push(fd);
